@@ -157,6 +157,40 @@ func TestIsLocalhost(t *testing.T) {
 	}
 }
 
+func TestSetBasicAuthKeepsClientAuthorization(t *testing.T) {
+	cm, err := NewCredentialsMatcher([]*HostPortUser{
+		{HostPort: HostPort{Host: "*", Port: "0"}, Userinfo: url.UserPassword("user", "pass")},
+	}, slog.Default())
+	if err != nil {
+		t.Fatal(err)
+	}
+	hp := &HTTPProxy{creds: cm}
+
+	tests := []struct {
+		name string
+		in   []string
+		want []string
+	}{
+		{"absent", nil, []string{"Basic dXNlcjpwYXNz"}},
+		{"value", []string{"Bearer t"}, []string{"Bearer t"}},
+		{"empty", []string{""}, []string{""}},
+		{"empty then value", []string{"", "Bearer t"}, []string{"", "Bearer t"}},
+	}
+	for _, tc := range tests {
+		req, err := http.NewRequest(http.MethodGet, "http://example.com/", http.NoBody)
+		if err != nil {
+			t.Fatal(err)
+		}
+		for _, v := range tc.in {
+			req.Header.Add("Authorization", v)
+		}
+		if err := hp.setBasicAuth(req); err != nil {
+			t.Fatal(err)
+		}
+		assert.Equal(t, tc.want, req.Header.Values("Authorization"), tc.name)
+	}
+}
+
 func TestErrorResponse(t *testing.T) {
 	cfg := DefaultHTTPProxyConfig()
 	cfg.ProxyLocalhost = AllowProxyLocalhost
